@@ -6,7 +6,7 @@ import re
 from typing import List, Optional, Tuple
 
 from ..cfg import NORMAL_KINDS, Label, Node
-from ..model import FuncInfo
+from ..model import AnalysisError, FuncInfo
 from ..queries import between, can_follow, count_paths, reach
 from .lib import GROUPS, NUM, RUN, Ctx, dominated_by_completion, field_of, key_lookup_guarded, r_not_found_only_when_absent
 from ..exc import KEYERROR
@@ -666,3 +666,57 @@ def r_instance_state(ctx: Ctx, rule: str):
         nm = [n for n in ctx.nodes(f, lambda n: n.op == "assign" and any(e.path == "self._name" for e in ctx.eff.of_node(n)))]
         for n in ctx.distinct_sites(nm):
             rep.ob(rule, "the pool's name is the constructor's `name` argument", isinstance(n.ast.value, ast.Name) and n.ast.value.id == "name", node=n)
+
+
+def r_register_faithful(ctx: Ctx, rule: str):
+    """The group register is the set of ids it was given: each of the five abstract methods of MutableSet does exactly the
+    same-named thing on the one underlying set, and nothing else writes that set.  Everything the pool reads off a register
+    (`while group_reg:`, `group_reg.pop()`, `ids.update(reg)`, `reg.add(id)`) goes through these five."""
+    rep = ctx.rep
+    rep.rule(rule, "REGISTER-FAITHFUL: TaskGroupRegister.__contains__/__iter__/__len__/add/discard are `x in S` / iter(S) / len(S) / S.add(x) / "
+                   "S.discard(x) on the same attribute S, which only the constructor binds; the mixin methods (pop, clear, ...) are not overridden")
+    c = ctx.prog.cls("internals.group_register.TaskGroupRegister")
+    init = c.methods.get("__init__")
+    if init is None:
+        raise AnalysisError("anchor: TaskGroupRegister.__init__ missing")
+    want = {"__contains__": "in", "__iter__": "iter", "__len__": "len", "add": "add", "discard": "discard"}
+    store = None
+    for nm, kind in want.items():
+        f = c.methods.get(nm)
+        if f is None:
+            rep.ob(rule, f"TaskGroupRegister.{nm} is defined", False, construct=f"TaskGroupRegister.{nm}")
+            continue
+        body = [b for b in f.node.body if not (isinstance(b, ast.Expr) and isinstance(b.value, ast.Constant))]
+        params = [p for p in f.param_names() if p != "self"]
+        ok, attr = False, None
+        if len(body) == 1 and isinstance(body[0], (ast.Return, ast.Expr)) and body[0].value is not None:
+            v = body[0].value
+            if kind == "in" and isinstance(v, ast.Compare) and len(v.ops) == 1 and isinstance(v.ops[0], ast.In) and isinstance(v.left, ast.Name) and params and v.left.id == params[0]:
+                attr, ok = v.comparators[0], isinstance(body[0], ast.Return)
+            elif kind in ("iter", "len") and isinstance(v, ast.Call) and isinstance(v.func, ast.Name) and v.func.id == kind and len(v.args) == 1 and not v.keywords:
+                attr, ok = v.args[0], isinstance(body[0], ast.Return)
+            elif kind in ("in", "iter", "len") and isinstance(v, ast.Call) and isinstance(v.func, ast.Attribute) \
+                    and v.func.attr == {"in": "__contains__", "iter": "__iter__", "len": "__len__"}[kind] and not v.keywords \
+                    and ((kind == "in" and len(v.args) == 1 and isinstance(v.args[0], ast.Name) and params and v.args[0].id == params[0]) or (kind != "in" and not v.args)):
+                # the same operation spelled as the dunder call on the set
+                attr, ok = v.func.value, isinstance(body[0], ast.Return)
+            elif kind in ("add", "discard") and isinstance(v, ast.Call) and isinstance(v.func, ast.Attribute) and v.func.attr == kind and len(v.args) == 1 \
+                    and isinstance(v.args[0], ast.Name) and params and v.args[0].id == params[0] and not v.keywords:
+                attr, ok = v.func.value, True
+        p_ = ctx.eff.paths(f).of(attr) if attr is not None else None
+        ok = ok and p_ is not None and p_.startswith("self.") and p_.count(".") == 1
+        if ok:
+            store = store or p_
+            ok = p_ == store
+        rep.ob(rule, f"TaskGroupRegister.{nm} is the plain set operation on the register's own set", ok, func=f, construct=body[0] if body else f"def {nm}")
+    if store is not None:
+        fld = store.split(".")[1]
+        writers = [e for e in ctx.eff.all() if e.kind in ("assign", "aug", "clear", "insert", "remove") and e.path == store and ctx.prog.enclosing_class(e.node.func) is c]
+        for e in writers:
+            nm = e.node.func.name
+            okw = (nm == "__init__" and e.kind == "assign") or (nm == "add" and e.kind == "insert") or (nm == "discard" and e.kind == "remove")
+            rep.ob(rule, "the underlying set is bound by the constructor and changed only by add / discard", okw, node=e.node, detail=f"{e.kind} in {nm}")
+        outside = [x for m in ctx.prog.modules.values() for x in ast.walk(m.tree) if isinstance(x, ast.Attribute) and x.attr == fld and m is not c.module]
+        rep.ob(rule, "no other module reaches into the register's set", not outside, construct=f"uses of .{fld} outside group_register: {len(outside)}")
+    over = [m for m in ("pop", "clear", "remove", "__ior__", "__iand__", "__isub__", "__ixor__", "__eq__", "__bool__", "isdisjoint", "__le__", "__lt__", "__ge__", "__gt__") if m in c.methods]
+    rep.ob(rule, "the mixin methods of MutableSet are inherited, not overridden", not over, construct="TaskGroupRegister overrides: " + (", ".join(over) or "none"))
